@@ -63,7 +63,8 @@ def trace {σ ω : Type} (step : σ → ω → σ × Res) (sh : σ → String) :
 
 def reply (l : List String) : String := if l.isEmpty then "-" else ";".intercalate l
 
-def showTree (s : Tree) : String := showLF s.cf ++ "|" ++ showBranch s.branch
+def showTree (s : Tree) : String :=
+  showLF s.cf ++ "|" ++ showBranch s.branch ++ "|" ++ showMode s.ds.held
 
 def parseTOp (s : String) : Option TOp :=
   match s.toList with
@@ -87,20 +88,23 @@ def showRepoW (s : RepoW) : String := showRepo s.repo ++ "," ++ (if s.wg then "G
 
 /-- environment: `T`/`F` (a lock with the known nonce pre-exists on disk) followed by
 any of the flags `x` (the object's own lock refuses `lock_read()`; kinds cl/lf/repo),
-`t` / `c` / `p` (the tree's / the branch's / the repository's control-files lock does) -/
+`t` / `c` / `p` (the tree's / the branch's / the repository's control-files lock does),
+`d` (the dirstate file is pinned by another reader: its lock_write is refused) -/
 structure Env where
   ext : Bool
   x : Bool
   t : Bool
   c : Bool
   p : Bool
+  d : Bool
 
 def parseEnv (s : String) : Option Env :=
   match s.toList with
   | e :: fl =>
-    if fl.all (fun ch => ch == 'x' || ch == 't' || ch == 'c' || ch == 'p') then
+    if fl.all (fun ch => ch == 'x' || ch == 't' || ch == 'c' || ch == 'p' || ch == 'd') then
       (parseBool (String.ofList [e])).map fun b =>
-        { ext := b, x := fl.contains 'x', t := fl.contains 't', c := fl.contains 'c', p := fl.contains 'p' }
+        { ext := b, x := fl.contains 'x', t := fl.contains 't', c := fl.contains 'c', p := fl.contains 'p',
+          d := fl.contains 'd' }
     else none
   | [] => none
 
@@ -134,7 +138,7 @@ def handle : List String → String
     | _, _ => "bad-op"
   | ["tree", e, ops] =>
     match parseEnv e, (splitList ops).mapM parseTOp with
-    | some e, some ops => reply (trace Tree.step showTree (Tree.init e.ext e.t e.c e.p) ops)
+    | some e, some ops => reply (trace Tree.step showTree (Tree.init e.ext e.t e.c e.p e.d) ops)
     | _, _ => "bad-op"
   | ["repow", fx, e, ops] =>
     match parseBool fx, parseEnv e, (splitList ops).mapM parseWOp with
@@ -147,7 +151,7 @@ def handle : List String → String
     | _, _, _ => "bad-op"
   | ["treeG", e, ops] =>
     match parseEnv e, (splitList ops).mapM parseTOp with
-    | some e, some ops => reply (trace Tree.stepG showTree (Tree.init e.ext e.t e.c e.p) ops)
+    | some e, some ops => reply (trace Tree.stepG showTree (Tree.init e.ext e.t e.c e.p e.d) ops)
     | _, _ => "bad-op"
   | _ => "bad-op"
 
